@@ -10,6 +10,7 @@
   * the manager model (NV.Model.Manager), compared with the real Manager by the `mgr` and `mgrc`
     correspondence areas (scripts with started-but-not-yet-run elections; concurrent soak).
 -/
+import NV.Gen.ManagerDo
 import NV.Model.CFG
 import NV.Gen.ManagerCFG
 import NV.Lemmas.Manager
@@ -240,5 +241,23 @@ example :
       items env2 = [.pok 0] ++ .cand ⟨1, 0⟩ :: [.cand ⟨2, 0⟩] ∧
       equalOpt (r.1.heap 0).ep (some ⟨1, 0⟩) = false := by
   refine ⟨_, rfl, rfl, rfl, rfl, rfl, by decide, rfl, by decide⟩
+
+
+open NV.CFG NV.Gen in
+/-- **C09 / C03 (regenerated)**: the control-flow graph of `(*activeEnpoint).do`, three projections: every `return` comes
+after the action was tried on the endpoint (no path answers for an endpoint without asking it); every path on which the
+action FAILED passes `atomic.AddUint32(&e.consecutiveErrors, 1)` before it leaves — whatever else is true of the query, its
+context included — so `threshold_starts_election` speaks about every failed exchange; every path on which it succeeded
+clears the count. The extraction saw the call, the increment and the reset. -/
+theorem gen_do_shape_ok :
+    check ManagerDo.doAction_strict ManagerDo.doAction ManagerDo.doAction_cert ManagerDo.doAction_init = true ∧
+    check ManagerDo.doCount_strict ManagerDo.doCount ManagerDo.doCount_cert ManagerDo.doCount_init = true ∧
+    check ManagerDo.doReset_strict ManagerDo.doReset ManagerDo.doReset_cert ManagerDo.doReset_init = true ∧
+    ManagerDo.doAction_init = (0, 0) ∧ ManagerDo.doCount_init = (0, 0) ∧ ManagerDo.doReset_init = (0, 0) ∧
+    ManagerDo.actionCalls = 1 ∧ ManagerDo.addCalls = 1 ∧ ManagerDo.storeCalls = 1 ∧
+    (ManagerDo.doAction.any fun b => b.evs == [.acq]) = true ∧
+    (ManagerDo.doCount.any fun b => b.evs == [.acq]) = true ∧ (ManagerDo.doCount.any fun b => b.evs == [.rel]) = true ∧
+    (ManagerDo.doReset.any fun b => b.evs == [.acq]) = true ∧ (ManagerDo.doReset.any fun b => b.evs == [.rel]) = true := by
+  decide
 
 end NV.C09
